@@ -15,6 +15,8 @@ import re, sys, time, itertools
 import z3
 from .. import boot, common, sx, rawsx, gx, actions
 from . import lexsx, c03 as c03mod, c05 as c05mod
+sys.path.insert(0, common.VERIF)
+from ref import refscan
 
 LT_LAYOUTS = ['\n', '\r', '\r\n', '\u2028', '\u2029', ' \n ', '//c\n', '/*c*/\n', '\n/*c*/', '/*\n*/', '/*c*/\n/*d*/']
 NOLT_LAYOUTS = [' ', '/*c*/']
@@ -212,8 +214,90 @@ def _sjob(args):
     return args, st, E.violations[:3], (E.unsupported + E.errors)[:2]
 
 
+RAW_SPELL = {'LINE_TERMINATOR': '\n', 'LINE_COMMENT': '//c', 'BLOCK_COMMENT': '/*c*/', 'BLOCK_COMMENT_ML': '/*c\nd*/', 'STRING_ML': "'a\\\nb'"}
+RESTRICTED = ('BREAK', 'CONTINUE', 'RETURN', 'THROW')
+
+
+def layout_items(gap):
+    """the layout between two real tokens as a list of 'LT' / 'C' (comment without terminator) / 'CML'"""
+    items, i = [], 0
+    while i < len(gap):
+        kind, e = refscan.next_element(gap, i, False)
+        if kind == 'lt':
+            items.append('LT')
+        elif kind == 'comment':
+            items.append('CML' if any(c in gap[i:e] for c in '\n\r\u2028\u2029') else 'C')
+        elif kind != 'ws':
+            return None
+        i = e
+    return items
+
+
+def concrete_asi_check(text):
+    """the lexer-level obligations of leg S on a concrete text (real Lexer, no instrumentation): where the lexer itself emits
+    AUTOSEMI, and what auto_semi answers for each real token, against the layout found in the text by an independent scan;
+    the recorded known classes (comment before/after the terminator, multi-line comment) are not judged here (leg T does)"""
+    from calmjs.parse.lexers.es5 import Lexer
+    from calmjs.parse.lexers.tokens import AutoLexToken
+    from calmjs.parse.exceptions import ECMASyntaxError
+    L = Lexer()
+    L.input(text)
+    out, prev, prev_end, autos = [], None, None, 0
+    for _ in range(400):
+        try:
+            tok = L.token()
+        except ECMASyntaxError:
+            return out
+        if tok is None:
+            break
+        if isinstance(tok, AutoLexToken):
+            autos += 1
+            continue
+        if prev is None:
+            if autos:
+                out.append('AUTOSEMI emitted before any real token')
+        else:
+            items = layout_items(text[prev_end:tok.lexpos])
+            if items is None:
+                return out
+            nl = any(x in ('LT', 'CML') for x in items)
+            if prev.type in RESTRICTED:
+                if not (nl and items[:1] != ['LT']) and nl != (autos > 0):
+                    out.append('restricted production: virtual semicolon %s after %r although a line terminator %s it and %r' % (
+                        'emitted' if autos else 'not emitted', prev.value, 'does not separate' if autos else 'separates', tok.value))
+                if autos > 1:
+                    out.append('more than one virtual semicolon after a restricted keyword')
+            elif autos:
+                out.append('AUTOSEMI emitted by the lexer after %r, which is not return/break/continue/throw' % prev.value)
+            saved = list(L.next_tokens)
+            r = L.auto_semi(tok)
+            L.next_tokens = saved
+            expect = tok.type not in ('SEMI', 'AUTOSEMI') and (tok.type == 'RBRACE' or nl)
+            if not (nl and items[-1:] != ['LT']) and expect != (r is not None):
+                out.append('auto_semi: a semicolon is %s for the offending token %r although it is %s' % (
+                    'supplied' if r is not None else 'refused', tok.value,
+                    'not separated from the previous token by a line terminator and is not }' if r is not None else 'separated by a line terminator (or is })'))
+        prev, prev_end, autos = tok, tok.lexpos + len(tok.value), 0
+    if prev is not None:
+        # end of input
+        items = layout_items(text[prev_end:]) or []
+        nl = any(x in ('LT', 'CML') for x in items)
+        if prev.type in RESTRICTED:
+            if not (nl and items[:1] != ['LT']) and nl != (autos > 0):
+                out.append('restricted production: virtual semicolon %s after %r at the end of the input although a line terminator %s' % (
+                    'emitted' if autos else 'not emitted', prev.value, 'does not follow' if autos else 'follows'))
+            if autos > 1:
+                out.append('more than one virtual semicolon after a restricted keyword')
+        elif autos:
+            out.append('AUTOSEMI emitted by the lexer after %r, which is not return/break/continue/throw' % prev.value)
+    return out
+
+
 def replay(d):
     w = d['input']
+    if 'raw_kinds' in w:
+        msgs = concrete_asi_check(w['text'])
+        return bool(msgs), 'text %r (raw token kinds %s): %s' % (w['text'], ' '.join(w['raw_kinds']), '; '.join(msgs[:2]) or 'lexer-level obligations hold')
     p = boot.fresh_parser()
     sp = actions.spellings(type(p.lexer))
     c03mod._ENGINE['p'] = p
@@ -279,7 +363,13 @@ def main():
         for msg, w in viols[:2]:
             names = dom.names
             kinds = [names[int(v)] for k, v in sorted(w.items()) if re.fullmatch(r'k\d+', k) and str(v).isdigit()]
-            run.inconclusive_('lexer-level ASI obligation fails for raw kinds %r: %s (no text replay for this class)' % (kinds, msg[:140]))
+            text = ' '.join(RAW_SPELL.get(k, sp.get(k, k)) for k in kinds)
+            rpd = {'property': 'C04', 'input': {'raw_kinds': kinds, 'text': text}}
+            ok, detail = rp.run_in_subprocess(rpd)
+            if ok:
+                run.violation('C04 S: ' + re.sub(r"%r|'(?:[^'\\\\]|\\\\.)*'", '..', msg)[:110], detail[:500], rpd)
+            else:
+                run.inconclusive_('lexer-level ASI obligation fails for raw kinds %r: %s (did not reproduce on the text %r)' % (kinds, msg[:140], text))
     run.coverage.update({
         'explanation': 'S: real Lexer wrapper (auto_semi, _is_prev_token_lt, _get_update_token, _token) under SX on <= %d raw items of symbolic kind vs a ghost of the raw '
                        'sequence; T: %d texts = table-derived structures x every statement-terminating `;` x %d layouts, judged against 7.9 evaluated on the real LALR tables.' % (
